@@ -28,6 +28,8 @@ func c03Rules(p *core.Prog, r *core.Run) {
 		return
 	}
 	c03Splice(p, r, m, "C03")
+	// what ServerName()/ALPNProtos() report is the reconstructed hello's
+	c01Accessors(p, r, m, "C03.S3.accessors")
 }
 
 // c03Splice holds the reconstruction rules; pre is the prefix they are
